@@ -37,6 +37,13 @@ def matrix_cases(tier):
                 if tier == 'quick' and n == 4 and order != tuple(range(4)) and order != (3, 2, 1, 0):
                     continue
                 out.append(dict(kind='matrix', n=n, m=[[i, j, m[(i, j)]] for (i, j) in pairs], order=list(order)))
+    # a row declared a second time (whatever the values then are, both orientations of every pair must agree)
+    for n in (2, 3):
+        pairs = [(i, j) for i in range(n) for j in range(i + 1)]
+        for base in ('I', 'N'):
+            for gi in range(n):
+                for vals in itertools.product('IN-', repeat=n + 1):      # (the program counts the repeated name as one more column)
+                    out.append(dict(kind='matrix', n=n, m=[[i, j, base] for (i, j) in pairs], order=list(range(n)), redeclare=[gi, list(vals)]))
     return out
 
 
@@ -49,6 +56,10 @@ def matrix_text(case):
     for r, gi in enumerate(order):
         row = [m[(gi, order[c])] for c in range(r + 1)]
         lines.append('interaction_matrix %s %s\n' % (NAMES[gi], ' '.join(row)))
+    if case.get('redeclare') is not None:
+        # an override row appended after the matrix: the row of one name given again in full, with other values
+        gi, vals = case['redeclare']
+        lines.append('interaction_matrix %s %s\n' % (NAMES[gi], ' '.join(vals)))
     return ''.join(lines), m
 
 
@@ -75,15 +86,19 @@ def pair_cases(tier):
     # explicit pairs whose values coincide with a default (the initial 0/0, the declared one), defaults declared twice,
     # pairs re-defined back to the default: an explicit pair keeps its own values whatever the default becomes
     for i in range(len(upairs)):
-        for val in ('zero', 'declared', 'second'):
+        for val in ('zero', 'declared', 'second', 'wide', 'wide2', 'ints', 'exp'):
             for dpos in (0, 1):
                 out.append(dict(kind='pairs2', script=[['pair', i, 0, val]], default_at=dpos, second_default=False))
                 out.append(dict(kind='pairs2', script=[['pair', i, 0, val]], default_at=dpos, second_default=True))
                 out.append(dict(kind='pairs2', script=[['pair', i, 0, 'own'], ['pair', i, 1, val]], default_at=dpos, second_default=True))
+                if val in ('wide', 'ints'):
+                    out.append(dict(kind='pairs2', script=[['pair', i, 0, 'own']], default_at=dpos, second_default=val))
     return out
 
 
-PAIR_VALUES = {'zero': (0.0, 0.0), 'declared': (3.5, 4.5), 'second': (2.25, 5.5), 'own': (1.25, 2.75)}
+PAIR_VALUES = {'zero': (0.0, 0.0), 'declared': (3.5, 4.5), 'second': (2.25, 5.5), 'own': (1.25, 2.75),
+               # numbers whose order as text differs from their order as numbers, integers, exponents
+               'wide': (3.0, 10.0), 'wide2': (8.0, 12.0), 'ints': (2, 11), 'exp': (9.5, 1.05e1)}
 
 
 def pair2_text(case):
@@ -100,8 +115,10 @@ def pair2_text(case):
     lines.insert(min(case['default_at'], len(lines)), 'sidechain_cutoffs default 3.5 4.5\n')
     default = (3.5, 4.5)
     if case['second_default']:
-        lines.append('sidechain_cutoffs default 2.25 5.5\n')
-        default = (2.25, 5.5)
+        dv = PAIR_VALUES.get(case['second_default'], (2.25, 5.5)) if isinstance(case['second_default'], str) else (2.25, 5.5)
+        lines.append('sidechain_cutoffs default %s %s\n' % dv)
+        default = tuple(float(x) for x in dv)
+    ref = {k_: tuple(float(x) for x in v_) for k_, v_ in ref.items()}
     return ''.join(lines), ref, default
 
 
@@ -315,7 +332,9 @@ def verify(case, p, acc, pristine=None):
                 except ValueError:
                     pass
                 if g1 != g2 or type(g1) is not type(g2):
-                    v.append(('matrix-asymmetric', 'get_value(%s,%s)=%r but (%s,%s)=%r' % (a, b, g1, b, a, g2)))
+                    v.append(('matrix-asymmetric%s' % ('/row-declared-twice' if case.get('redeclare') else ''), 'get_value(%s,%s)=%r but (%s,%s)=%r' % (a, b, g1, b, a, g2)))
+                elif case.get('redeclare') is not None:
+                    pass      # only the symmetry is claimed for a re-declared row
                 elif g1 != want or type(g1) is not type(want):
                     v.append(('matrix-wrong-value', 'get_value(%s,%s)=%r expected %r' % (a, b, g1, want)))
             if im.get_value(NAMES[i], 'ZZZ') is not None or im.get_value('ZZZ', NAMES[i]) is not None:
